@@ -282,7 +282,7 @@ def handle : Handler
           match parseM seenS, parseM outS, parseM chS, parseM ctS with
           | some seen, some out, some ch0, some ct0 =>
             -- gRPC-Web frames (the trailer frame; the gRPC-WebSocket header frame) carry binary (-bin) values in wire form,
-            -- unpadded base64 (webbridge lpmTrailerValue, fix D36 of slice C08): the client's view is compared decoded
+            -- unpadded base64 (webbridge lpmTrailerValue, fix D38 of slice C08): the client's view is compared decoded
             let unbin (md : MD) : MD :=
               md.map fun kv => if grpcBin kv.1 then (kv.1, kv.2.map fun v => (b64dec false v []).getD v) else kv
             let ch := match e with | .grpcws => unbin ch0 | _ => ch0
